@@ -45,6 +45,7 @@ class Registry:
         self.lemmas = []         # (name, props, vars, assumes, goal)
         self.defs = {}           # spec macro name -> (params, expr)
         self.inline = set()      # targets inlined at call sites
+        self.inline_fresh = set()  # targets whose real body is executed when the receiver was built on the current path
         self.scans = []          # mechanical scans: (name, props, callable)
         self.truthy_classes = set()
         self.findings = []
@@ -84,6 +85,9 @@ class Registry:
 
     def inline_fn(self, *targets):
         self.inline.update(targets)
+
+    def inline_when_fresh(self, *targets):
+        self.inline_fresh.update(targets)
 
     def scan(self, name, props, fn):
         self.scans.append((name, list(props), fn))
